@@ -93,6 +93,14 @@ def boundaries(rnd, n):
             u = rnd.choice(["m", "km", "s", "kg", "ft", "N", "J/s"])
             f = f.replace("(" + s, "(" + s + rnd.choice(["", " "]) + u, 1)
         out.append(f)
+    for _ in range(n // 6):
+        # just below / above an integer, beyond the resolution of a float; integers beyond 2^53
+        m = rnd.choice([rnd.randint(-50, 50), rnd.randint(2 ** 53, 2 ** 54), -rnd.randint(2 ** 53, 2 ** 54), rnd.randint(-10 ** 6, 10 ** 6)])
+        eps = Fraction(rnd.choice([1, -1]), 10 ** rnd.randint(15, 25))
+        s, _ = lit(m + eps)
+        out.append(rnd.choice(["floor(%s)", "ceil(%s)", "round(%s)", "floor(%s)", "ceil(%s)"]) % s)
+        if rnd.random() < 0.3:
+            out.append(rnd.choice(["floor(%d.5)", "ceil(%d.5)", "round(%d.5)"]) % m)
     out += ["floor()", "ceil()", "round()", "floor(1, 2)", "ceil(1.5, 2)", "round(1, 2, 3)", "floor(1.5, 1)", "round(1.5 m, 0)", "floor(-0.5)", "ceil(-0.5)",
             "round(-2.5)", "round(2.5)", "round(-0.125, 2)", "round(1250, -2)", "round(-1250, -2)", "round(1249.5, -2)", "round(4.5, -1)", "floor(-7)", "ceil(-7 m)",
             "round(0.5)", "round(-0.5)", "round(1.25, 1)", "round(-1.25, 1)", "floor(3 km)", "ceil(3.2 km)"]
